@@ -1,6 +1,7 @@
 import Driver.Sim
 import Driver.Lib
 import Driver.Graph
+import Driver.Analysis
 /-! Line-protocol driver: one JSON request per input line, one JSON reply per output line. -/
 open Lean
 namespace Pyrtl.Drv
@@ -18,6 +19,7 @@ def dispatch (j : Json) : Except String Json := do
   | "cond" => cmdCond j
   | "sanity" => cmdSanity j
   | "topo" => cmdTopo j
+  | "timing" => cmdTiming j
   | _ => throw s!"unknown cmd {cmd}"
 
 partial def loop (hin hout : IO.FS.Stream) : IO Unit := do
